@@ -57,6 +57,7 @@ struct vpki_ent *vpki_make(const char *cn, struct vpki_ent *issuer, const struct
     ASN1_TIME_set(X509_getm_notAfter(x), now + o->not_after_off);
     X509_NAME *nm = X509_NAME_new();
     X509_NAME_add_entry_by_txt(nm, "O", MBSTRING_ASC, (const unsigned char *)"verif", -1, -1, 0);
+    for (int i = 0; i < o->subject_extra_ous; i++) { char ou[64]; memset(ou, 'a' + i % 26, 60); ou[60] = 0; X509_NAME_add_entry_by_txt(nm, "OU", MBSTRING_ASC, (const unsigned char *)ou, -1, -1, 0); }
     X509_NAME_add_entry_by_txt(nm, "CN", MBSTRING_ASC, (const unsigned char *)cn, -1, -1, 0);
     X509_set_subject_name(x, nm);
     X509_set_issuer_name(x, issuer ? X509_get_subject_name(issuer->x) : nm);
@@ -66,7 +67,12 @@ struct vpki_ent *vpki_make(const char *cn, struct vpki_ent *issuer, const struct
     add_ext(x, ix, NID_basic_constraints, o->is_ca ? "critical,CA:TRUE" : "CA:FALSE");
     if (o->is_ca) add_ext(x, ix, NID_key_usage, "critical,keyCertSign,cRLSign");
     else add_ext(x, ix, NID_key_usage, "critical,digitalSignature,keyAgreement");
-    if (!o->no_ski) add_ext(x, ix, NID_subject_key_identifier, "hash");
+    if (o->ski_len > 0) {
+        ASN1_OCTET_STRING *os = ASN1_OCTET_STRING_new(); unsigned char *kb = malloc((size_t)o->ski_len);
+        for (int i = 0; i < o->ski_len; i++) kb[i] = (unsigned char)(i * 7 + 1);
+        ASN1_OCTET_STRING_set(os, kb, o->ski_len); X509_add1_ext_i2d(x, NID_subject_key_identifier, os, 0, X509V3_ADD_REPLACE);
+        ASN1_OCTET_STRING_free(os); free(kb);
+    } else if (!o->no_ski) add_ext(x, ix, NID_subject_key_identifier, "hash");
     if (issuer && !issuer->x) abort();
     if (issuer) add_ext(x, ix, NID_authority_key_identifier, "keyid:always");
     switch (o->eku) {
